@@ -965,7 +965,31 @@ class Gen:
                    block([self.tick_()],
                          {"k": "call", "f": name, "args": [binop("sub", "u8", var(n), ilit("u8", 1)), step]}))
         self.fns[name] = {"ps": [n, acc], "pts": ["u8", t], "rt": t, "b": block([], body), "special": True}
-        if self.r.random() < 0.5:
+        form = self.r.random()
+        if form < 0.45:
+            # non-tail recursion: the activation reads its own parameters and a local bound before the call after the
+            # recursive call(s) returned (every activation needs variables of its own); `two` makes it a tree
+            # recursion whose second call gets the first one's result
+            k, r1 = self.fresh(), self.fresh()
+            self.scopes = [[(acc, t)]]
+            before = self.expr(t, 1)
+            self.scopes = [[(acc, t), (k, t), (r1, t)]]
+            after = self.expr(t, 1)
+            op1, op2 = self.r.choice(["add", "sub", "mul"]), self.r.choice(["add", "sub", "mul"])
+            dec = binop("sub", "u8", var(n), ilit("u8", 1))
+            ss = [let(k, t, before), self.tick_(),
+                  let(r1, t, {"k": "call", "f": name, "args": [dec, step]})]
+            if self.r.random() < 0.4:
+                r2 = self.fresh()
+                ss.append(let(r2, t, {"k": "call", "f": name, "args": [dec, binop(op2, t, var(r1), var(k))]}))
+                after = binop(op1, t, after, var(r2))
+            res = binop(op1, t, binop(op2, t, var(r1), var(k)), binop(op2, t, var(acc), after))
+            body = if_(binop("eq", "u8", var(n), ilit("u8", 0)), block([], var(acc)), block(ss, res))
+            self.fns[name]["b"] = block([], body)
+            self.rec_entry = name
+            self.scopes = []
+            return t
+        if form < 0.75:
             # mutual recursion: name -> name_b -> name (a group of functions that can only be compiled together);
             # the caller in main enters the group through either member
             other = name + "b"
